@@ -524,6 +524,13 @@ impl PrometheusBuilder {
         self.build_with_clock(Clock::new())
     }
 
+    /// Verification hook: builds the recorder with a caller-supplied (mock) clock.
+    #[cfg(metrics_verif)]
+    #[doc(hidden)]
+    pub fn build_with_clock_verif(self, clock: Clock) -> PrometheusRecorder {
+        self.build_with_clock(clock)
+    }
+
     pub(crate) fn build_with_clock(self, clock: Clock) -> PrometheusRecorder {
         let inner = Inner {
             registry: Registry::new(GenerationalStorage::new(AtomicStorage)),
